@@ -26,20 +26,24 @@ import (
 )
 
 type c02Epochs struct {
-	t            *rapid.T
-	c            *stats.Collector
-	r            *rig.Rig
-	p            *peer.Peer
-	cfg          rig.Config
-	persist      bool
-	storeKind    string
-	next         int            // model: next unused outbound number
-	saved        map[int][]byte // model: bytes saved in the current epoch
-	lastFirst    int            // highest first-time number transmitted in the current epoch
-	log          []string
-	feat         map[string]bool
-	appFlag      bool // the application sets 141=Y on the next outgoing Logon
-	declineEvery int  // the application declines sends whose id ends in a multiple of this digit (0 = none)
+	pendingTx     map[int]string // application messages numbered inside the current logged-on period and not yet seen on the wire
+	inPeriod      bool           // between the OnLogon and the OnLogout notification
+	sendInOnLogon bool           // the application sends an order from inside OnLogon
+	nSent         int
+	t             *rapid.T
+	c             *stats.Collector
+	r             *rig.Rig
+	p             *peer.Peer
+	cfg           rig.Config
+	persist       bool
+	storeKind     string
+	next          int            // model: next unused outbound number
+	saved         map[int][]byte // model: bytes saved in the current epoch
+	lastFirst     int            // highest first-time number transmitted in the current epoch
+	log           []string
+	feat          map[string]bool
+	appFlag       bool // the application sets 141=Y on the next outgoing Logon
+	declineEvery  int  // the application declines sends whose id ends in a multiple of this digit (0 = none)
 }
 
 func (e *c02Epochs) logf(format string, a ...interface{}) {
@@ -60,6 +64,18 @@ func (e *c02Epochs) open() {
 		if mt, _ := m.Header.GetString(35); mt == "A" && e.appFlag {
 			m.Body.SetBool(141, true)
 			e.feat["application-set-reset-flag"] = true
+		}
+	}
+	r.OnLogonDo = func() {
+		if !e.sendInOnLogon {
+			return
+		}
+		e.nSent++
+		m := quickfix.NewMessage()
+		m.Header.SetString(35, "D")
+		m.Body.SetString(11, "L"+strconv.Itoa(e.nSent)+"x1") // (never declined: the id ends in 1)
+		if err := r.V.Send(m); err == nil {
+			e.feat["sent-from-OnLogon"] = true
 		}
 	}
 	r.RefuseSend = func(_ string, m *quickfix.Message) bool {
@@ -115,7 +131,16 @@ func (e *c02Epochs) after(st rig.StepResult, what string) {
 			e.logf("  store reset")
 		case "store.SetNextSender":
 			e.next = en.Value
+		case "OnLogon":
+			e.inPeriod, e.pendingTx = true, map[int]string{}
+		case "OnLogout", "closed":
+			e.inPeriod, e.pendingTx = false, map[int]string{}
 		case "store.Save", "store.IncrSender":
+			if e.inPeriod && en.Kind == "store.Save" {
+				if fs, _ := fixwire.Scan(en.Raw, nil); !fixwire.IsAdminMsgType(fixwire.GetS(fs, 35)) {
+					e.pendingTx[en.Seq] = fixwire.GetS(fs, 11)
+				}
+			}
 			if en.Seq != e.next {
 				vk.Violation(e.t, e.c, "C02/numbers-not-consecutive", "during %s number %d was handed out, the next unused number is %d\n%s", what, en.Seq, e.next, e.history())
 			}
@@ -128,6 +153,7 @@ func (e *c02Epochs) after(st rig.StepResult, what string) {
 				continue
 			}
 			e.logf("  first-time %s %d", en.MsgType, en.Seq)
+			delete(e.pendingTx, en.Seq)
 			if en.Seq <= e.lastFirst {
 				vk.Violation(e.t, e.c, "C02/first-time-frames-out-of-order", "during %s frame %d after %d\n%s", what, en.Seq, e.lastFirst, e.history())
 			}
@@ -142,6 +168,13 @@ func (e *c02Epochs) after(st rig.StepResult, what string) {
 				}
 				sentThisEpoch = append(sentThisEpoch, en)
 			}
+		}
+	}
+	// while the session stays logged on every number handed out to an application message is
+	// transmitted: once the send queue has been flushed nothing numbered in this period is outstanding
+	if e.inPeriod && e.r.V.IsLoggedOn() && e.r.V.QueuedToSend() == 0 && what != "send" {
+		for n, id := range e.pendingTx {
+			vk.Violation(e.t, e.c, "C02/assigned-number-never-transmitted", "after %s number %d (application message %s, numbered after the logon notification) has not been transmitted although the session is logged on and its send queue is empty\n%s", what, n, id, e.history())
 		}
 	}
 	if S := e.r.S(); S != e.next {
@@ -197,6 +230,7 @@ func c02EpochsProperty(t *rapid.T) {
 				return
 			}
 			e.appFlag = rapid.IntRange(0, 2).Draw(t, "application-sets-reset-flag") == 0
+			e.sendInOnLogon = rapid.IntRange(0, 2).Draw(t, "application-sends-from-OnLogon") == 0
 			peerFlag := rapid.IntRange(0, 4).Draw(t, "peer-sets-reset-flag") == 0
 			before := e.r.S()
 			st, ok := e.r.Connect()
